@@ -68,7 +68,7 @@ func (vc *FnVC) callCommon(fr *frame, st *state, c *ssa.CallCommon, res ssa.Valu
 			// not modelled
 		}
 		key := vc.eng.keyOf(callee)
-		sp := vc.eng.db.Funcs[key]
+		sp, ftParams := vc.eng.specFor(callee)
 		if sp != nil {
 			sp.Used = true
 		}
@@ -87,7 +87,7 @@ func (vc *FnVC) callCommon(fr *frame, st *state, c *ssa.CallCommon, res ssa.Valu
 		if sp == nil && vc.eng.autoInline(callee) {
 			inline = true
 		}
-		if inline && fr.depth < maxInlineDepth && callee.Blocks != nil && !vc.eng.isRecursive(callee) {
+		if inline && fr.depth < maxInlineDepth && callee.Blocks != nil && !fr.inChain(callee) {
 			return vc.inlineCall(fr, st, callee, sp, args, bindings, resType)
 		}
 		if sp != nil && len(sp.Clauses) > 0 || sp != nil && sp.HasMods {
@@ -96,7 +96,7 @@ func (vc *FnVC) callCommon(fr *frame, st *state, c *ssa.CallCommon, res ssa.Valu
 				names = append(names, p.Name())
 			}
 			selfv := val{t: vc.fnID(callee), typ: callee.Type(), fn: callee}
-			return vc.applyContract(fr, st, sp, key, names, args, &selfv, resType, pos, callee)
+			return vc.applyContractN(fr, st, sp, key, names, ftParams, args, &selfv, resType, pos, callee)
 		}
 		return vc.defaultCall(fr, st, callee, c, args, resType, key)
 	}
@@ -183,14 +183,20 @@ func shortName(key string) string {
 
 // applyContract: check requires, havoc modifies, assume ensures.
 func (vc *FnVC) applyContract(fr *frame, st *state, sp *FuncSpec, key string, names []string, args []val, self *val, resType types.Type, pos string, callee *ssa.Function) val {
+	return vc.applyContractN(fr, st, sp, key, names, nil, args, self, resType, pos, callee)
+}
+
+func (vc *FnVC) applyContractN(fr *frame, st *state, sp *FuncSpec, key string, names, names2 []string, args []val, self *val, resType types.Type, pos string, callee *ssa.Function) val {
 	vars := map[string]val{}
-	for i, n := range names {
-		if i < len(args) {
-			a := args[i]
-			if a.lv == nil || a.t != "" {
-				a.t = vc.term(fr, st, a)
+	for _, nn := range [][]string{names2, names} {
+		for i, n := range nn {
+			if i < len(args) {
+				a := args[i]
+				if a.lv == nil || a.t != "" {
+					a.t = vc.term(fr, st, a)
+				}
+				vars[n] = a
 			}
-			vars[n] = a
 		}
 	}
 	if self != nil {
@@ -208,12 +214,19 @@ func (vc *FnVC) applyContract(fr *frame, st *state, sp *FuncSpec, key string, na
 		if cl.Kind != "requires" {
 			continue
 		}
-		t := vc.evalBool(cfr, st, st, cl.E, vars)
 		tg := tags
 		if len(cl.Tags) > 0 {
 			tg = cl.Tags
 		}
-		vc.oblige("requires", shortName(key)+":"+cl.Src, st.reach, t, tg, pos)
+		parts := splitConj(cl.E, vc.eng.db, 0)
+		for k, pe := range parts {
+			t := vc.evalBool(cfr, st, st, pe, vars)
+			desc := shortName(key) + ":" + cl.Src
+			if len(parts) > 1 {
+				desc = fmt.Sprintf("%s:%s/%d", shortName(key), shorten(cl.Src, 48), k+1)
+			}
+			vc.oblige("requires", desc, st.reach, t, tg, pos)
+		}
 	}
 	// termination of recursion: callee measure below caller's
 	if callee != nil && fr.depth == 0 && vc.eng.sameSCC(vc.fn, callee) {
@@ -261,11 +274,14 @@ func (vc *FnVC) applyContract(fr *frame, st *state, sp *FuncSpec, key string, na
 	res := vc.freshResult(resType, "res:"+shortName(key))
 	vc.bindResults(vars, res, callee)
 	for _, cl := range sp.Clauses {
-		if cl.Kind != "ensures" {
+		if cl.Kind != "ensures" && cl.Kind != "ghostensures" {
 			continue
 		}
 		t := vc.evalBool(cfr, st, pre, cl.E, vars)
 		vc.assume(st.reach, t)
+		if cl.Kind == "ghostensures" {
+			vc.assumption("ghost-state definition (not checked against a body): " + shortName(key) + ": " + cl.Src)
+		}
 	}
 	if sp.Trusted {
 		vc.assumption("contract of " + key + " is assumed (trusted/external), not verified")
@@ -422,6 +438,7 @@ func (vc *FnVC) entryMeasure() string {
 func (vc *FnVC) inlineCall(fr *frame, st *state, callee *ssa.Function, sp *FuncSpec, args []val, bindings []val, resType types.Type) val {
 	cfr := newFrame(callee, fr.depth+1, fr.prefix+callee.Name()+"/")
 	cfr.spec = sp
+	cfr.parent = fr
 	for i, p := range callee.Params {
 		a := args[i]
 		if a.lv == nil || a.t != "" {
@@ -517,11 +534,11 @@ func (vc *FnVC) builtin(fr *frame, st *state, b *ssa.Builtin, c *ssa.CallCommon,
 		vc.assume("true", S.RangeOf(resType, r))
 		k := vc.newName("k")
 		// value semantics: result = a ++ b
-		vc.assume("true", fmt.Sprintf("(and (= (s.len %s) (+ (s.len %s) (s.len %s))) (= (s.off %s) 0) (>= (s.cap %s) (s.cap %s)))", r, a.t, bb.t, r, r, a.t))
-		vc.assume("true", fmt.Sprintf("(forall ((%s Int)) (! (=> (and (<= 0 %s) (< %s (s.len %s))) (= (select (s.arr %s) %s) (select (s.arr %s) (+ (s.off %s) %s)))) :pattern ((select (s.arr %s) %s))))", k, k, k, a.t, r, k, a.t, a.t, k, r, k))
-		vc.assume("true", fmt.Sprintf("(forall ((%s Int)) (! (=> (and (<= 0 %s) (< %s (s.len %s))) (= (select (s.arr %s) (+ (s.len %s) %s)) (select (s.arr %s) (+ (s.off %s) %s)))) :pattern ((select (s.arr %s) (+ (s.off %s) %s)))))", k, k, k, bb.t, r, a.t, k, bb.t, bb.t, k, bb.t, bb.t, k))
+		vc.assume("true", fmt.Sprintf("(and (= (s.len %s) (+ (s.len %s) (s.len %s))) (>= (s.cap %s) (s.cap %s)))", r, a.t, bb.t, r, a.t))
+		vc.assume("true", fmt.Sprintf("(forall ((%s Int)) (! (=> (and (<= 0 %s) (< %s (s.len %s))) (= (select (s.arr %s) %s) (select (s.arr %s) %s))) :pattern ((select (s.arr %s) %s))))", k, k, k, a.t, r, k, a.t, k, r, k))
+		vc.assume("true", fmt.Sprintf("(forall ((%s Int)) (! (=> (and (<= 0 %s) (< %s (s.len %s))) (= (select (s.arr %s) (+ (s.len %s) %s)) (select (s.arr %s) %s))) :pattern ((select (s.arr %s) %s))))", k, k, k, bb.t, r, a.t, k, bb.t, k, bb.t, k))
 		// single-element appends (the common case) get a direct fact
-		vc.assume("true", fmt.Sprintf("(=> (= (s.len %s) 1) (= (select (s.arr %s) (s.len %s)) (select (s.arr %s) (s.off %s))))", bb.t, r, a.t, bb.t, bb.t))
+		vc.assume("true", fmt.Sprintf("(=> (= (s.len %s) 1) (= (select (s.arr %s) (s.len %s)) (select (s.arr %s) 0)))", bb.t, r, a.t, bb.t))
 		_ = es
 		return val{t: r, typ: resType}
 	case "copy":
@@ -542,10 +559,10 @@ func (vc *FnVC) builtin(fr *frame, st *state, b *ssa.Builtin, c *ssa.CallCommon,
 		cur := vc.loadLV(st, p)
 		nv := vc.freshConst("copied", S.SortOf(p.typ))
 		k := vc.newName("k")
-		vc.assume("true", fmt.Sprintf("(and (= (s.off %s) (s.off %s)) (= (s.len %s) (s.len %s)) (= (s.cap %s) (s.cap %s)))", nv, cur, nv, cur, nv, cur))
+		vc.assume("true", fmt.Sprintf("(and (= (s.len %s) (s.len %s)) (= (s.cap %s) (s.cap %s)))", nv, cur, nv, cur))
 		// arr'[off0+off+k] = src[k] for k<n, else unchanged
-		vc.assume("true", fmt.Sprintf("(forall ((%s Int)) (! (= (select (s.arr %s) %s) (let ((j (- %s (+ (s.off %s) %s)))) (ite (and (<= 0 j) (< j %s)) (select (s.arr %s) (+ (s.off %s) j)) (select (s.arr %s) %s)))) :pattern ((select (s.arr %s) %s))))",
-			k, nv, k, k, cur, off, n, src.t, src.t, cur, k, nv, k))
+		vc.assume("true", fmt.Sprintf("(forall ((%s Int)) (! (= (select (s.arr %s) %s) (let ((j (- %s %s))) (ite (and (<= 0 j) (< j %s)) (select (s.arr %s) j) (select (s.arr %s) %s)))) :pattern ((select (s.arr %s) %s))))",
+			k, nv, k, k, off, n, src.t, cur, k, nv, k))
 		vc.storeLV(st, p, nv)
 		return val{t: n, typ: resType}
 	case "delete":
@@ -579,4 +596,13 @@ func (vc *FnVC) builtin(fr *frame, st *state, b *ssa.Builtin, c *ssa.CallCommon,
 	}
 	vc.note("builtin %s abstracted in %s", b.Name(), fr.fn.Name())
 	return vc.freshResult(resType, "bi:"+b.Name())
+}
+
+func (fr *frame) inChain(f *ssa.Function) bool {
+	for x := fr; x != nil; x = x.parent {
+		if x.fn == f {
+			return true
+		}
+	}
+	return false
 }
